@@ -5,7 +5,7 @@ from sfa.rules import parallel
 from sfa.rules import table
 
 LEVEL_TEXT = (
-    'Static decision of structural clauses of C17: every override of read/read_many/labels/write in every Store subclass carries the matching coherence decorator; the decorators check before / refresh after the wrapped call; _mtime_coherent raises StoreFileMutation on both the changed and the vanished branch; _last_modified is written only by __init__ and _mtime_update; Bus._derive propagates store, config and max_persist; every Bus method that hands out elements of the backing Series loads them first on every path (or filters placeholders); the load and eviction steps of _update_series_cache_iloc update array cell / loaded flag / LRU entry / count together, evict oldest-first exactly when the count exceeds max_persist, after the LRU touch; no loop uses its iterable as a lookup key; the lazy label generator given to the chunked store reader iterates the very snapshot the consuming loop iterates, with the same placeholder test that guards next(), and reads no self attribute the loop writes; the zip stores\' payload generator pairs each payload with the label of its own iteration and that label\'s config, and the parallel and sequential paths iterate the same generator. Member names: the zip store lists labels by removing exactly the suffix its writer appended (never by cutting the extension text out of the middle of a name). Not decided: contents written by each format; mtime granularity; optional formats absent here.')
+    'Static decision of structural clauses of C17: every override of read/read_many/labels/write in every Store subclass carries the matching coherence decorator; the decorators check before / refresh after the wrapped call; _mtime_coherent raises StoreFileMutation on both the changed and the vanished branch; _last_modified is written only by __init__ and _mtime_update; Bus._derive propagates store, config and max_persist; every Bus method that hands out elements of the backing Series loads them first on every path (or filters placeholders); the load and eviction steps of _update_series_cache_iloc update array cell / loaded flag / LRU entry / count together, evict oldest-first exactly when the count exceeds max_persist, after the LRU touch; no loop uses its iterable as a lookup key; the lazy label generator given to the chunked store reader iterates the very snapshot the consuming loop iterates, with the same placeholder test that guards next(), and reads no self attribute the loop writes; the zip stores\' payload generator pairs each payload with the label of its own iteration and that label\'s config, and the parallel and sequential paths iterate the same generator. Member names: the zip store lists labels by removing exactly the suffix its writer appended (never by cutting the extension text out of the middle of a name). Exporter config: every multi-table exporter writes with the caller\'s config or else the container\'s own (the pickle exporter is the listed exception). Not decided: contents written by each format; mtime granularity; optional formats absent here.')
 
 CLAIM = dict(
     text=LEVEL_TEXT,
@@ -22,4 +22,5 @@ def run(ctx: Ctx) -> None:
     busrules.loop_iterable_as_key(ctx)
     busrules.reader_consumer(ctx)
     busrules.member_name_inverse(ctx)
+    busrules.exporter_config_fallback(ctx)
     parallel.config_alignment(ctx)
